@@ -23,6 +23,8 @@ func checkC07(c *Ctx) {
 	checkC07ForeignMap(c)
 	checkC07FieldMeta(c)
 	checkC07FieldClosures(c)
+	checkC07EscapingClosures(c)
+	checkSerializerFresh(c, nil, c.Rule("C07.pool-fresh", "a sync.Pool New closure hands out only objects created inside it (plus the builder's receiver/parameters)", 2))
 	checkC07Globals(c)
 	checkC07Callbacks(c)
 	checkC06Recv(c, c.Rule("C07.immutability-recv", "exported *DB methods never write through their receiver (shared by all goroutines using the handle)", 55))
